@@ -31,12 +31,12 @@ ENGINES = {
         assumptions=['the scripted MessageProducer channel has room (Produce blocks on a full channel, as librdkafka does)',
                      'C14: Elasticsearch answers one item per document, in order, with the "errors" flag set iff some item is non-2xx; action is always "index"',
                      'C14: batch-max-wait-ms is exercised as a logical timer (the harness pauses arrivals until quiescence); wall-clock accuracy of the '
-                     'timer is only bounded coarsely (quiescence within batch-max-wait + 0.7 s, else clause 5 fails)'],
+                     'timer is only bounded coarsely (quiescence within batch-max-wait + 1.2 s, else clause 5 fails)'],
     ),
 }
 
 PROPS = {
-    'C14': dict(engine='e7', n=dict(quick=480, thorough=6000), shards=12, components=[11, 12, 13, 14], search_mult=3, search_s=60,
+    'C14': dict(engine='e7', n=dict(quick=900, thorough=12000), shards=12, components=[11, 12, 13, 14], search_mult=3, search_s=60,
                 manifest=dict(
                     level_text='Coq theorems (coq/Props/C14.v) over an executable model of ProcessAsync, the batcher, retryBulkIndex/doBulkIndex/'
                                'handleErrorResponses and the token pool: for every batch, configuration and per-document outcome script without '
